@@ -167,7 +167,7 @@ func (e *c07Env) bundle(tok int, dest, rt, flags string) bpv7.Bundle {
 	bl := bpv7.Builder().
 		Source("dtn://src/app").
 		Destination("dtn://" + dest).
-		ReportTo("dtn://" + rt).
+		ReportTo(fmt.Sprintf("dtn://%s%d", rt, tok)).
 		CreationTimestampTime(time.Date(2021, 3, 4, 5, 6, 7+tok, 0, time.UTC)).
 		Lifetime("876000h")
 	if tok%2 == 0 {
@@ -261,7 +261,7 @@ func c07Entries(es []c07Entry) string {
 
 // received: push recipients' inboxes plus one fetch per live REST client (mailboxes are drained
 // after every operation, the pkg/agent harness covers fetch sequences).
-func (e *c07Env) received(cur int) string {
+func (e *c07Env) received() string {
 	e.barrier()
 	var es []c07Entry
 	for _, id := range e.order {
@@ -278,11 +278,13 @@ func (e *c07Env) received(cur int) string {
 		case 'P':
 			var ts []int
 			for _, pong := range a.ping.drain() {
-				// the pong goes from the ping agent's endpoint to the acknowledged bundle's report-to endpoint
+				// the pong goes from the ping agent's endpoint to the acknowledged bundle's report-to
+				// endpoint, which is unique per bundle
 				t := 0
-				if b, ok := e.bundles[cur]; ok && b.PrimaryBlock.ReportTo == pong.PrimaryBlock.Destination &&
-					b.PrimaryBlock.Destination == pong.PrimaryBlock.SourceNode {
-					t = cur
+				for tok, b := range e.bundles {
+					if b.PrimaryBlock.ReportTo == pong.PrimaryBlock.Destination && b.PrimaryBlock.Destination == pong.PrimaryBlock.SourceNode {
+						t = tok
+					}
 				}
 				ts = append(ts, t)
 			}
@@ -375,6 +377,23 @@ func (e *c07Env) store(tok int) string {
 	return strings.Join(cs, "+")
 }
 
+// stores: the store state of every bundle seen so far, "<tok>:<store>;…"
+func (e *c07Env) stores() string {
+	var toks []int
+	for tok := range e.bundles {
+		toks = append(toks, tok)
+	}
+	sort.Ints(toks)
+	var parts []string
+	for _, tok := range toks {
+		parts = append(parts, fmt.Sprintf("%d:%s", tok, e.store(tok)))
+	}
+	if len(parts) == 0 {
+		return "-"
+	}
+	return strings.Join(parts, ";")
+}
+
 func c07SplitAC(s string) (a, c int) {
 	p := strings.SplitN(s, ".", 2)
 	a, _ = strconv.Atoi(p[0])
@@ -432,15 +451,19 @@ func (e *c07Env) do(op string) string {
 			e.post(a, "unregister", agent.RestUnregisterRequest{UUID: a.uuids[c]}, &ur)
 			delete(a.live, c)
 		}
+	case 't':
+		// the body of the "pending_bundles" cron job
+		e.c.checkPendingBundles()
+		return op + "=" + e.received() + "|" + e.sent() + "|" + e.stores()
 	case 'b':
 		tok, _ := strconv.Atoi(head[1:])
 		b := e.bundle(tok, f[1], f[2], f[3])
 		verifReceive(e.c, b, bpv7.DtnNone())
-		return op + "=" + e.received(tok) + "|" + e.sent() + "|" + e.store(tok)
+		return op + "=" + e.received() + "|" + e.sent() + "|" + e.store(tok)
 	default:
 		e.fail("unknown op %q", op)
 	}
-	return op + "=" + e.received(0) + "|" + e.sent() + "|" + e.endpoints()
+	return op + "=" + e.received() + "|" + e.sent() + "|" + e.endpoints()
 }
 
 // c07Run: "core <node> <peers> <op>=<obs> ..."
@@ -459,6 +482,9 @@ func c07Run(t *testing.T, dir string, node string, peers []string, ops []string)
 		t.Errorf("core: %v", err)
 		return "# harness-failure NewCore: " + err.Error()
 	}
+	// no timer-driven re-dispatch of pending bundles: the harness calls checkPendingBundles itself ("t")
+	c.cron.Unregister("pending_bundles")
+	c.cron.Unregister("clean_store")
 	e := &c07Env{t: t, c: c, net: &verifNet{}, node: node, agents: map[int]*c07Agent{},
 		bundles: map[int]bpv7.Bundle{}, byCbor: map[string]int{}, byJson: map[string]int{}, byId: map[string]int{}}
 	defer func() {
@@ -518,6 +544,10 @@ func c07Scenarios(r *verifRng, n int) [][]string {
 			out = append(out, ops)
 		}
 	}
+	// bundles for a foreign endpoint are forwarded and kept pending; once an agent registers that
+	// endpoint the next pending-bundles tick delivers them locally (once)
+	out = append(out, []string{"b1:n2/a:rt/x:d", "b2:n2/a:rt/x:-", "b3:n2/b:rt/x:d", "b4:n1/zz:rt/x:d", "t",
+		"M0:n2/a", "R1", "r1.1:n2/a", "r1.2:n2/a", "P2:n2/b", "t", "t", "b1:n2/a:rt/x:d", "u1.1", "b2:n2/a:rt/x:-", "t"})
 	eps := []string{"n1/a", "n1/b", "n2/a", "n1/"}
 	for len(out) < n {
 		var ops []string
@@ -541,6 +571,8 @@ func c07Scenarios(r *verifRng, n int) [][]string {
 				ops = append(ops, fmt.Sprintf("r%d.%d:%s", a, cl, eps[r.intn(4)]))
 				live = append(live, [2]int{a, cl})
 				cl++
+			case k == 6 && tok > 0:
+				ops = append(ops, "t")
 			case k == 5 && len(live) > 0:
 				i := r.intn(len(live))
 				ops = append(ops, fmt.Sprintf("u%d.%d", live[i][0], live[i][1]))
